@@ -16,7 +16,7 @@ import (
 const template = "POST http://fault.test/h HTTP/1.1\r\nHost: fault.test\r\nContent-Type: text/plain\r\nX-A: 1\r\nContent-Length: 5\r\n\r\nhello"
 
 func genHostile(r *lib.RNG, i int) (name string, data []byte) {
-	switch i % 18 {
+	switch i % 20 {
 	case 0: // byte flips
 		b := []byte(template)
 		for k := r.Range(1, 4); k > 0; k-- {
@@ -68,6 +68,10 @@ func genHostile(r *lib.RNG, i int) (name string, data []byte) {
 		default:
 			return "non-utf8-host", []byte("CONNECT " + string(h) + ":443 HTTP/1.1\r\nHost: " + string(h) + ":443\r\n\r\n")
 		}
+	case 18: // targets without a port or with a scheme the proxy does not speak
+		return "target-without-port", []byte("CONNECT example.invalid HTTP/1.1\r\nHost: example.invalid\r\n\r\n")
+	case 19:
+		return "foreign-scheme", []byte("GET " + lib.Pick(r, []string{"ftp", "gopher", "ws", "file", "x"}) + "://example.invalid/file HTTP/1.1\r\nHost: example.invalid\r\n\r\n")
 	case 17: // high bit set on a few octets anywhere
 		b := []byte(template)
 		for k := r.Range(1, 4); k > 0; k-- {
